@@ -160,6 +160,17 @@ class MafRecord(MutableMapping, LocatableByAllele):
         elif column.column_index is None:
             # set the column index to the next column
             column.column_index = len(self.__columns_list)
+        # reject, before the record is touched, an index that cannot hold
+        # this column: a negative index, or one whose slot holds a column
+        # with a different name
+        if column.column_index < 0:
+            raise ValueError(f"Column index '{column.column_index}' is negative")
+        if column.column_index < len(self.__columns_list):
+            occupant = self.__columns_list[column.column_index]
+            if occupant is not None and occupant.key != key:
+                raise ValueError(
+                    f"Column index '{column.column_index}' is already used by column '{occupant.key}'"
+                )
         self.__columns_dict[key] = column
         assert column.column_index is not None
 
